@@ -60,3 +60,63 @@ KERNELS = [
       r"make_flatten_stats\(.*?for \(tensor_size_t i = 0, size = samples\.size\(\);[^;]*;\s*i\s*\+=\s*(.*?)\)",
       [], [("batch", "Z")], "dstats", ["C14"]),
 ]
+
+# ---- extension (C14_Float*.v): the SHAPES of the floating-point expressions of stats.cpp, translated over Z ------------------------
+# (same operator tree with the fields as variables; literals 1.0 / 0.0 become the variables one / zero). The PrimFloat twin
+# C14_FloatDefs.v instantiates one polymorphic shape with the binary64 operations, and C14_Float.v proves (by reflexivity, i.e.
+# syntactically) that the Z instance of that shape is the translated kernel: a changed field / operator / association in the
+# source breaks that lemma, and the bit-for-bit comparison of the twin with the library catches it on concrete values.
+SCALE = r"void scalar_stats_t::scale\(const scaling_type scaling, tensor2d_map_t values\) const.*?case scaling_type::%s:.*?(?<!auto )\barray\s*=\s*(.*?);"
+UPSC = r"void scalar_stats_t::upscale\(scaling_type scaling, tensor2d_map_t values\) const.*?case scaling_type::%s:.*?(?<!auto )\barray\s*=\s*(.*?);"
+FIELDS = [(r"m_mean\.array\(\)", "mean"), (r"m_min\.array\(\)", "mn"), (r"m_max\.array\(\)", "mx"),
+          (r"m_div_range\.array\(\)", "dr"), (r"m_mul_range\.array\(\)", "mr"),
+          (r"m_div_stdev\.array\(\)", "ds"), (r"m_mul_stdev\.array\(\)", "ms"), (r"\barray\b", "x")]
+SVARS = [("x", "Z"), ("mean", "Z"), ("mn", "Z"), ("mx", "Z"), ("dr", "Z"), ("mr", "Z"), ("ds", "Z"), ("ms", "Z")]
+DONE = r"void done\(scalar_stats_t& stats.*?"
+DFIELDS = [(r"\b1\.0\b", "one"), (r"\b0\.0\b", "zero"), (r"stats\.m_max\(i\)", "mx"), (r"stats\.m_min\(i\)", "mn"),
+           (r"stats\.m_stdev\(i\)", "sd"), (r"stats\.m_mean\(i\)", "sum"), (r"\bepsilon\b", "eps")]
+DVARS = [("one", "Z"), ("zero", "Z"), ("mx", "Z"), ("mn", "Z"), ("sd", "Z"), ("sum", "Z"), ("eps", "Z"), ("dN", "Z")]
+MS = r"auto make_scaling\(const scalar_stats_t& stats.*?case scaling_type::%s:\s*w\s*=\s*(.*?);"
+MSB = r"auto make_scaling\(const scalar_stats_t& stats.*?case scaling_type::%s:\s*w\s*=[^;]*;\s*b\.array\(\)\s*=\s*(.*?);"
+MFIELDS = [(r"stats\.m_mean\.array\(\)", "mean"), (r"stats\.m_min\.array\(\)", "mn"), (r"stats\.m_div_range\.array\(\)", "dr"),
+           (r"stats\.m_div_stdev\.array\(\)", "ds"), (r"stats\.m_div_range\b", "dr"), (r"stats\.m_div_stdev\b", "ds")]
+MVARS = [("mean", "Z"), ("mn", "Z"), ("dr", "Z"), ("ds", "Z")]
+UP = r"void nano::upscale\(const scalar_stats_t& flatten_stats.*?"
+KERNELS += [
+    K("src_c14f_scale_mean", "src/dataset/stats.cpp", SCALE % "mean", FIELDS, SVARS, "dstatsf", ["C14"]),
+    K("src_c14f_scale_minmax", "src/dataset/stats.cpp", SCALE % "minmax", FIELDS, SVARS, "dstatsf", ["C14"]),
+    K("src_c14f_scale_standard", "src/dataset/stats.cpp", SCALE % "standard", FIELDS, SVARS, "dstatsf", ["C14"]),
+    K("src_c14f_upscale_mean", "src/dataset/stats.cpp", UPSC % "mean", FIELDS, SVARS, "dstatsf", ["C14"]),
+    K("src_c14f_upscale_minmax", "src/dataset/stats.cpp", UPSC % "minmax", FIELDS, SVARS, "dstatsf", ["C14"]),
+    K("src_c14f_upscale_standard", "src/dataset/stats.cpp", UPSC % "standard", FIELDS, SVARS, "dstatsf", ["C14"]),
+    # done(), branch N > 1: variance under the square root, mean, the four (de)normalisers
+    K("src_c14f_var", "src/dataset/stats.cpp", DONE + r"stats\.m_stdev\(i\)\s*=\s*std::sqrt\((.*?)\);", DFIELDS, DVARS, "dstatsf", ["C14"]),
+    K("src_c14f_mean", "src/dataset/stats.cpp", DONE + r"stats\.m_mean\(i\)\s*/=\s*(.*?);", DFIELDS, DVARS, "dstatsf", ["C14"],
+      wrap="sum / ({})"),
+    K("src_c14f_div_range", "src/dataset/stats.cpp", DONE + r"stats\.m_div_range\(i\)\s*=\s*(.*?);", DFIELDS, DVARS, "dstatsf", ["C14"]),
+    K("src_c14f_div_stdev", "src/dataset/stats.cpp", DONE + r"stats\.m_div_stdev\(i\)\s*=\s*(.*?);", DFIELDS, DVARS, "dstatsf", ["C14"]),
+    K("src_c14f_mul_range", "src/dataset/stats.cpp", DONE + r"stats\.m_mul_range\(i\)\s*=\s*(.*?);", DFIELDS, DVARS, "dstatsf", ["C14"]),
+    K("src_c14f_mul_stdev", "src/dataset/stats.cpp", DONE + r"stats\.m_mul_stdev\(i\)\s*=\s*(.*?);", DFIELDS, DVARS, "dstatsf", ["C14"]),
+    # update(): the two running sums
+    K("src_c14f_upd_sum", "src/dataset/stats.cpp", r"stats\.m_mean\(column\)\s*\+=\s*(.*?);", [], [("sum", "Z"), ("value", "Z")],
+      "dstatsf", ["C14"], wrap="sum + ({})"),
+    K("src_c14f_upd_sq", "src/dataset/stats.cpp", r"stats\.m_stdev\(column\)\s*\+=\s*(.*?);", [], [("sq", "Z"), ("value", "Z")],
+      "dstatsf", ["C14"], wrap="sq + ({})"),
+    # make_scaling(): x -> w * x + b per mode
+    K("src_c14f_mk_w_mean", "src/dataset/stats.cpp", MS % "mean", MFIELDS, MVARS, "dstatsf", ["C14"]),
+    K("src_c14f_mk_w_minmax", "src/dataset/stats.cpp", MS % "minmax", MFIELDS, MVARS, "dstatsf", ["C14"]),
+    K("src_c14f_mk_w_standard", "src/dataset/stats.cpp", MS % "standard", MFIELDS, MVARS, "dstatsf", ["C14"]),
+    K("src_c14f_mk_b_mean", "src/dataset/stats.cpp", MSB % "mean", MFIELDS, MVARS, "dstatsf", ["C14"]),
+    K("src_c14f_mk_b_minmax", "src/dataset/stats.cpp", MSB % "minmax", MFIELDS, MVARS, "dstatsf", ["C14"]),
+    K("src_c14f_mk_b_standard", "src/dataset/stats.cpp", MSB % "standard", MFIELDS, MVARS, "dstatsf", ["C14"]),
+    # nano::upscale(): bias = (W fb + bias - tb) / tw ; W = W / tw * fw
+    K("src_c14f_up_bias_num", "src/dataset/stats.cpp", UP + r"bias\.array\(\)\s*=\s*(.*?);",
+      [(r"\(weights\.matrix\(\) \* flatten_b\.vector\(\)\)\.array\(\)", "dotwfb"), (r"bias\.array\(\)", "b"),
+       (r"targets_b\.array\(\)", "tb")], [("dotwfb", "Z"), ("b", "Z"), ("tb", "Z")], "dstatsf", ["C14"]),
+    K("src_c14f_up_bias_div", "src/dataset/stats.cpp", UP + r"bias\.array\(\)\s*/=\s*(.*?);",
+      [(r"targets_w\.array\(\)", "tw")], [("num", "Z"), ("tw", "Z")], "dstatsf", ["C14"], wrap="num / ({})"),
+    K("src_c14f_up_w_div", "src/dataset/stats.cpp", UP + r"weights\.matrix\(\)\.array\(\)\.colwise\(\)\s*/=\s*(.*?);",
+      [(r"targets_w\.array\(\)", "tw")], [("w", "Z"), ("tw", "Z")], "dstatsf", ["C14"], wrap="w / ({})"),
+    K("src_c14f_up_w_mul", "src/dataset/stats.cpp", UP + r"weights\.matrix\(\)\.array\(\)\.rowwise\(\)\s*\*=\s*(.*?);",
+      [(r"flatten_w\.array\(\)\.transpose\(\)", "fw")], [("w", "Z"), ("fw", "Z")], "dstatsf", ["C14"], wrap="w * ({})"),
+]
